@@ -1,25 +1,91 @@
-use ropey::Rope;
-
 use syntax::parser::TextSize;
 
+/// Maps byte offsets to LSP positions (zero-based line, UTF-16 column) and back.
+///
+/// Lines are terminated by LF, CRLF or CR, as the LSP specification defines them.
 #[derive(Debug, Eq, PartialEq)]
 pub struct LineIndex {
-    rope: Rope,
+    text: Box<str>,
+    /// byte offset of the first character of each line
+    line_starts: Vec<TextSize>,
 }
 
 impl LineIndex {
     pub fn new(text: &str) -> Self {
+        let bytes = text.as_bytes();
+        let mut line_starts = vec![TextSize::from(0)];
+        let mut i = 0;
+        while i < bytes.len() {
+            let terminator_len = match bytes[i] {
+                b'\r' if bytes.get(i + 1) == Some(&b'\n') => 2,
+                b'\r' | b'\n' => 1,
+                _ => 0,
+            };
+            i += terminator_len.max(1);
+            if terminator_len != 0 {
+                line_starts.push(TextSize::try_from(i).expect("text is too large"));
+            }
+        }
         Self {
-            rope: Rope::from_str(text),
+            text: text.into(),
+            line_starts,
         }
     }
 
     pub fn pos_to_line(&self, pos: TextSize) -> usize {
-        self.rope.char_to_line(pos.into())
+        self.line_starts.partition_point(|start| *start <= pos) - 1
     }
 
+    /// Returns the start of the line; a line past the last one is the end of the text.
     pub fn line_to_pos(&self, line: usize) -> TextSize {
-        let pos = self.rope.line_to_char(line);
-        TextSize::try_from(pos).expect("line index out of bounds")
+        match self.line_starts.get(line) {
+            Some(start) => *start,
+            None => TextSize::of(&*self.text),
+        }
+    }
+
+    /// Returns the zero-based line and the UTF-16 column of the offset.
+    pub fn pos_to_line_col(&self, pos: TextSize) -> (usize, u32) {
+        let pos = self.floor_char_boundary(pos.min(TextSize::of(&*self.text)));
+        let line = self.pos_to_line(pos);
+        let line_start = usize::from(self.line_starts[line]);
+        let col = self.text[line_start..usize::from(pos)]
+            .chars()
+            .map(|c| c.len_utf16() as u32)
+            .sum();
+        (line, col)
+    }
+
+    /// Returns the offset of the UTF-16 column in the line; a column past the end of the line is the line end.
+    pub fn line_col_to_pos(&self, line: usize, col: u32) -> TextSize {
+        let Some(line_start) = self.line_starts.get(line) else {
+            return TextSize::of(&*self.text);
+        };
+        let line_start = usize::from(*line_start);
+        let line_end = match self.line_starts.get(line + 1) {
+            Some(next_start) => usize::from(*next_start),
+            None => self.text.len(),
+        };
+        let content = self.text[line_start..line_end].trim_end_matches(['\r', '\n']);
+
+        let mut pos = line_start;
+        let mut rest = col;
+        for c in content.chars() {
+            let width = c.len_utf16() as u32;
+            if rest < width {
+                break;
+            }
+            rest -= width;
+            pos += c.len_utf8();
+        }
+        TextSize::try_from(pos).expect("text is too large")
+    }
+
+    fn floor_char_boundary(&self, pos: TextSize) -> TextSize {
+        let mut pos = usize::from(pos);
+        while !self.text.is_char_boundary(pos) {
+            pos -= 1;
+        }
+        TextSize::try_from(pos).expect("text is too large")
     }
 }
